@@ -318,7 +318,9 @@ def _one_case(ck, rng, case, total, root_reserve, reserved, readonly, mode):
         ck.mon("disconnect-releases")
         left = [(sis.index(w.si), w.sh) for w in victims if os.path.exists(case.incoming_path(w.si, w.sh))]
         if left:
-            viol("disconnect-leaves-upload-open", "connection lost but upload(s) %r still have their incoming file" % (left,))
+            viol("disconnect-leaves-upload-open", "connection lost but upload(s) %r still have their incoming file and "
+                 "allocated_size() still reserves %d bytes (other open uploads: %d)"
+                 % (left, ss.allocated_size(), sum(w.size for w in opened.values())))
 
     def do_advance():
         dt = rng.choice([1, 600, 1700, 1799, 1801, 1900, 4000])
@@ -372,3 +374,7 @@ class _Stop(Exception):
 # 11. server.py get_available_space: read-only honoured only when statistics are available     CAUGHT (same key)
 # 12. fileutil.py get_available_space: OSError reported as None (unlimited)                     CAUGHT (op-raises-TypeError)
 # The list is kept runnable in selftest/breaks_c28.py (tools/selftest.py --prop C28: 14/14 caught).
+# 13. server.py remote_allocate_buckets: disconnect callback closes over the loop variable (seeded C28-6): only the last
+#     share of a request is aborted when the connection is lost        CAUGHT (disconnect-leaves-upload-open)
+#     -- was MISSED while C28 only used the direct API; the Foolscap front end + connection loss are now history steps.
+# 14. immutable.py BucketWriter.disconnected: does nothing              CAUGHT (disconnect-leaves-upload-open)
